@@ -36,6 +36,10 @@ example : Gen.C30.wireCallSites = ["_flush_collector:maybe_externalize_collector
     "_read_request:resolve_external_location", "_write_result_batch:maybe_externalize_batch",
     "_write_stream_header:maybe_externalize_batch"] := by decide
 example : Gen.C30.codecs = ["zstd", "gzip"] := by decide
+-- what is uploaded under a compression setting: always the codec's output, labelled with the codec (no size test)
+example : Gen.C30.collectorCompression = ["codec = _CodecEncoding(config.compression.algorithm)", "original_bytes = len(ipc_bytes)",
+    "ipc_bytes = _codec_compress(codec, ipc_bytes, level=config.compression.level)", "content_encoding = codec.value"] := by decide
+example : Gen.C30.batchCompression = Gen.C30.collectorCompression := by decide
 
 /-! ## batches inside a stored object -/
 
@@ -212,7 +216,9 @@ def wantsCollector (cfg : Cfg) (hasData : Bool) (size : Nat) : Bool :=
 
 /-! ## environment: hashing, Arrow IPC, codecs, object store — assumed laws are fields -/
 
-/-- `B` = byte strings (abstract: the model never looks inside one) -/
+/-- `B` = byte strings (abstract: the model never looks inside one).  Nothing is assumed about sizes: `comp` may EXPAND its
+input (incompressible payloads, tiny payloads); the only law is that `decomp c` inverts `comp c`, so every transparency
+theorem holds for payloads of any entropy. -/
 structure Env (B : Type) where
   sha : B → Str
   ser : Nat → List WBatch → B
